@@ -8,7 +8,7 @@ import fstree
 import gen
 
 RULE = ("trees containing zip archives (0..N members, nested directories, stored/deflated, unix and DOS mode bits, "
-        "dates across months, names with spaces/unicode), hard links to archives (a second name of the same inode), archives with wrong or upper-case extension, corrupt "
+        "dates across months, names with spaces/unicode), hard links to archives (a second name of the same inode), directories named like archives, archives with wrong or upper-case extension, corrupt "
         "archives (every truncation point of a small archive in the thorough tier, sampled in quick; flipped "
         "central-directory bytes) x filters, ordering, limits; (a) CLI output vs the Lean model (member tables are "
         "snapshot input read with Python zipfile), (b) oracle: rows for ordinary entries equal the run without "
@@ -31,6 +31,14 @@ def arc_tree(r):
             if cand:
                 r.choice(cand)["encrypted"] = True      # a member that cannot be opened
         ents.append({"path": name, "kind": "z", "members": members, "compress": r.chance(1, 2), "mtime": 1700000000 + i})
+    if r.chance(1, 2):
+        # a directory whose name ends in an archive extension is a directory: listed and entered like any other
+        d = r.choice(dirs)
+        dn = (d + "/" if d else "") + r.choice(["exploded.war", "libs.JAR", "old.zip"])
+        ents.append({"path": dn, "kind": "d", "mode": 0o755, "mtime": 1700000000})
+        ents.append({"path": dn + "/inside.txt", "kind": "f", "size": 4, "mode": 0o644, "mtime": 1700000001, "lines": 1})
+        ents.append({"path": dn + "/WEB-INF", "kind": "d", "mode": 0o755, "mtime": 1700000000})
+        ents.append({"path": dn + "/WEB-INF/dep.jar", "kind": "z", "members": fstree.gen_zip_members(r, 2), "mtime": 1700000002})
     if r.chance(1, 2):
         # a second name (hard link) of one of the archives: its members are listed under both names
         arcs = [e for e in ents if e["kind"] == "z"]
